@@ -126,6 +126,7 @@ pub struct CSnap {
     pub pwr_reves: f64,
     pub get_fuel: f64,
     pub get_res: f64,
+    pub get_loss: f64,
 }
 pub fn csnap(c: &Consist) -> CSnap {
     CSnap {
@@ -140,6 +141,7 @@ pub fn csnap(c: &Consist) -> CSnap {
         pwr_reves: c.state.pwr_reves.value,
         get_fuel: c.get_energy_fuel().value,
         get_res: c.get_net_energy_res().value,
+        get_loss: c.get_energy_loss().value,
     }
 }
 
@@ -230,6 +232,7 @@ pub fn oracle_consist_c01(p: &CSnap, s: &CSnap, info: &CInfo, checks: &mut u64) 
     c(&mut f, s.e_out, out, "consist-energy_out=sum-units@Consist::solve_energy_consumption");
     c(&mut f, s.get_fuel, fuel, "get_energy_fuel=sum-units@Consist::get_energy_fuel");
     c(&mut f, s.get_res, chem, "get_net_energy_res=sum-units@Consist::get_net_energy_res");
+    c(&mut f, s.get_loss, s.units.iter().map(|u| u.l_loss_reported).sum(), "get_energy_loss=sum-units@Consist::get_energy_loss");
     c(&mut f, s.pwr_out, s.units.iter().map(|u| u.l_out).sum(), "consist-pwr_out=sum-units@Consist::solve_energy_consumption");
     c(&mut f, s.pwr_fuel, s.units.iter().map(|u| u.fc_fuel).sum(), "consist-pwr_fuel=sum-units@Consist::solve_energy_consumption");
     c(&mut f, s.pwr_reves, s.units.iter().map(|u| u.res_chem).sum(), "consist-pwr_reves=sum-units@Consist::solve_energy_consumption");
